@@ -59,5 +59,20 @@ def classify(stage, where, flags, detail):
     return None
 
 
-# quick-tier floors, about 1/4 of the unchanged tree (thorough: x10)
-FLOORS_QUICK = {}
+# quick-tier floors, about 1/4 of the unchanged tree with seed 0
+# (thorough: x10)
+FLOORS_QUICK = {
+    "monitor:infer": 300, "monitor:validate": 300,
+    "monitor:returned-values": 260, "monitor:bound-tight": 900,
+    "monitor:yaml-roundtrip": 180, "monitor:yaml-verdict": 180,
+    "held": 200, "kind:series": 80, "kind:frame": 230,
+    "mode:plain": 350, "mode:some-null": 55, "mode:all-null": 75,
+    "mode:empty": 75, "index:range": 140, "index:single": 20,
+    "index:single:unnamed": 25, "index:multi": 25,
+    "index:multi:unnamed": 25, "index:multi:repeated-names": 25,
+    "class:int64-big": 8, "class:uint64": 7, "class:Int64-big": 8,
+    "class:float64-inf": 8, "class:float64-negzero": 7,
+    "class:float64-subnormal": 8, "class:datetime-subsecond": 10,
+    "class:datetime-tz-utc": 10, "class:cat-str": 30, "class:str": 30,
+    "class:timedelta": 30, "class:obj-int-str": 8, "class:bool": 25,
+}
